@@ -203,6 +203,8 @@ pub struct Outcome {
     pub retx_seen: u64,
     pub final_counts: Vec<(usize, usize, usize)>,
     pub diag: Diag,
+    /// the scenario's uniform link latency (those holds are not faults)
+    pub latency: u32,
 }
 
 impl Outcome {
@@ -210,7 +212,7 @@ impl Outcome {
     pub fn applied_faults(&self) -> Vec<Fault> {
         self.pkts
             .iter()
-            .filter(|p| p.fate != Fate::Now && !p.loopback)
+            .filter(|p| !p.loopback && p.fate != Fate::Now && (self.latency == 0 || p.fate != Fate::Hold(self.latency)))
             .map(|p| Fault {
                 dir: p.dir,
                 kind: p.kind,
@@ -692,9 +694,12 @@ impl Wire {
                 drops: self.drops,
                 state,
             };
-            let Some(f) = fates.decide(&choice) else {
+            let Some(mut f) = fates.decide(&choice) else {
                 return false;
             };
+            if f == Fate::Now && self.scn.latency > 0 {
+                f = Fate::Hold(self.scn.latency);
+            }
             self.pkts[idx].fate = f;
             match f {
                 Fate::Now => now.push(idx),
@@ -897,6 +902,7 @@ impl Wire {
             retx_seen: self.retx_seen,
             final_counts,
             diag: self.diag.clone(),
+            latency: self.scn.latency,
         }
     }
 
@@ -933,6 +939,7 @@ impl Wire {
                     retx_seen: 0,
                     final_counts: vec![],
                     diag: Diag::default(),
+                    latency: scn.latency,
                 }
             }
         }
